@@ -150,7 +150,7 @@ var errConnBroken = errors.New("scripted connection failure")
 
 func (w *faultWriter) Write(p []byte) (int, error) {
 	w.mu.Lock()
-	fail := w.failAt >= 0 && w.n >= w.failAt
+	idx := w.n
 	w.n++
 	for w.hold {
 		if w.wake == nil {
@@ -163,6 +163,8 @@ func (w *faultWriter) Write(p []byte) (int, error) {
 		w.mu.Lock()
 		w.blocked--
 	}
+	// decided when the write goes through: a write that was held while the connection broke fails
+	fail := w.failAt >= 0 && idx >= w.failAt
 	w.mu.Unlock()
 	if fail {
 		return 0, errConnBroken
